@@ -66,6 +66,47 @@ fn main() {
             0
         }
         "replay" => driver::replay(args.get(2).expect("replay <file>")),
+        "gen-corpus" => {
+            // small valid seed inputs for the byte-level fuzz targets (committed under /verif/corpus)
+            use sentinel_core::{circuitbreaker as cb, flow, hotspot, isolation, system};
+            let root = "/verif/corpus";
+            let w = |dir: &str, name: &str, data: &[u8]| {
+                let d = format!("{}/{}", root, dir);
+                let _ = std::fs::create_dir_all(&d);
+                let _ = std::fs::write(format!("{}/{}", d, name), data);
+            };
+            let fr = vec![flow::Rule { id: "f1".into(), resource: "abc".into(), threshold: 7.25, stat_interval_ms: 2000, ..Default::default() },
+                          flow::Rule { id: "f2".into(), resource: "a|b".into(), threshold: 1.0, control_strategy: flow::ControlStrategy::Throttling, max_queueing_time_ms: 10, ..Default::default() }];
+            w("parse_rules", "flow.json", serde_json::to_string(&fr).unwrap().as_bytes());
+            let mut items = std::collections::HashMap::new();
+            items.insert("a".to_string(), 5u64);
+            let hr = vec![hotspot::Rule { id: "h1".into(), resource: "abc".into(), metric_type: hotspot::MetricType::QPS, threshold: 2, burst_count: 1, duration_in_sec: 1, specific_items: items, ..Default::default() }];
+            w("parse_rules", "hotspot.json", serde_json::to_string_pretty(&hr).unwrap().as_bytes());
+            let br = vec![cb::Rule { id: "b1".into(), resource: "abc".into(), strategy: cb::BreakerStrategy::ErrorRatio, threshold: 0.5, retry_timeout_ms: 3000, stat_interval_ms: 10000, min_request_amount: 10, ..Default::default() }];
+            w("parse_rules", "breaker.json", serde_json::to_string(&br).unwrap().as_bytes());
+            let ir = vec![isolation::Rule { id: "i1".into(), resource: "abc".into(), threshold: 3, ..Default::default() }];
+            w("parse_rules", "isolation.json", serde_json::to_string(&ir).unwrap().as_bytes());
+            let sr = vec![system::Rule { id: "s1".into(), metric_type: system::MetricType::InboundQPS, threshold: 100.0, strategy: system::AdaptiveStrategy::BBR }];
+            w("parse_rules", "system.json", serde_json::to_string(&sr).unwrap().as_bytes());
+            w("parse_rules", "empty.json", b"[]");
+            // literal from the repository's metric_item tests
+            w("parse_metric_line", "legal.txt", b"1564382218000|2019-07-29 14:36:58|/foo/*|4|9|3|0|25|0|2|1");
+            w("parse_metric_line", "short.txt", b"1564382218000|14:36:58|abc|4|9|3|0|25");
+            w("parse_yaml", "default.yaml", serde_yaml::to_string(&sentinel_core::config::ConfigEntity::new()).unwrap().as_bytes());
+            // search_files: [split hi, split lo, begin, max_lines] + index (2 entries) + two lines
+            let mut idx = Vec::new();
+            idx.extend_from_slice(&1_709_632_801u64.to_be_bytes());
+            idx.extend_from_slice(&0u64.to_be_bytes());
+            idx.extend_from_slice(&1_709_632_802u64.to_be_bytes());
+            idx.extend_from_slice(&42u64.to_be_bytes());
+            let lines = b"1709632801000|10:00:01|alpha|2|6|1|0|14|0|2|2\n1709632802000|10:00:02|alpha|3|9|1|1|21|0|3|3\n";
+            let mut f = vec![0u8, 32, 2, 3];
+            f.extend_from_slice(&idx);
+            f.extend_from_slice(lines);
+            w("search_files", "two-seconds.bin", &f);
+            println!("corpus written under {}", root);
+            0
+        }
         "list" => {
             for p in engine::registry() {
                 println!("{}", p.id());
